@@ -83,8 +83,8 @@ theorem C18_aliases_safe_each {n a c : Name} {as : List Name} (h : n ∈ reporta
   simpa [hc] using this
 
 /-- same codec identity ⇒ same decoder in the model, for every byte string and both modes
-    (modelled codecs; the CJK codecs are opaque objects of the codec crate, for which "same codec
-    object" *is* the statement, and the harness additionally compares their output on samples) -/
+    (codecs other than the multi-byte legacy ones; Props/C18b.lean removes the restriction now that those are
+    Lean definitions too) -/
 theorem same_codec_same_decode (o : Oracle) {c n : Name} (h : codecIdNow c = codecIdNow n)
     (hmb : Gen.multiByte.contains c = Gen.multiByte.contains n) (chunk : Bool) (x : Bytes)
     (hne : ∀ id, codecNow n ≠ some (.external id)) :
